@@ -1,6 +1,7 @@
 package checks
 
 import (
+	"math"
 	"bytes"
 	"fmt"
 	"os"
@@ -28,7 +29,10 @@ type c18ctx struct {
 
 func maxOf[T constraints.Unsigned]() int {
 	var z T
-	return int(^z)
+	if m := uint64(^z); m < uint64(math.MaxInt) {
+		return int(m)
+	}
+	return math.MaxInt // a 64-bit prefix can count anything that exists in memory
 }
 
 // judgeLimit applies the oracle to one writer call at length n against prefix maximum max.
@@ -60,7 +64,15 @@ func (c *c18ctx) judgeLimit(name string, n, max int, err error, p *mon.Panic, ro
 	}
 }
 
-func lengthsAround(max int) []int { return []int{max - 1, max, max + 1, 2*max + 1} }
+// lengthsAround: for 8- and 16-bit prefixes the four lengths around the maximum; for 32- and 64-bit prefixes the
+// maximum is out of reach (C18's u32 child handles 2^32), but "at and below the limit the value encodes and
+// round-trips" still has to hold, in particular across the 8- and 16-bit boundaries.
+func lengthsAround(max int) []int {
+	if max > 1<<20 {
+		return []int{0, 1, 255, 256, 65535, 65536, 70001}
+	}
+	return []int{max - 1, max, max + 1, 2*max + 1}
+}
 
 func c18String[T constraints.Unsigned](c *c18ctx) {
 	max := maxOf[T]()
@@ -261,6 +273,8 @@ func c18Prefix[T constraints.Unsigned](c *c18ctx) {
 	c18FixedList[T](c)
 	c18StringList[T, uint8](c)
 	c18StringList[T, uint16](c)
+	c18StringList[T, uint32](c)
+	c18StringList[T, uint64](c)
 	c18ObjList[T](c)
 }
 
@@ -580,6 +594,8 @@ func c18(e *Env) {
 		c18Prefix[uint16](c)
 		c18Prefix[namedPfx8](c) // defined prefix types (type Len uint16) are admitted by the ~ constraint
 		c18Prefix[namedPfx16](c)
+		c18Prefix[uint32](c) // wide prefixes: every reachable length is below the limit and must encode and round-trip
+		c18Prefix[uint64](c)
 		r.Set("primitive_instantiations", len(c.prims))
 		r.DistinctAdd(int64(len(c.prims)) * 4)
 		r.Sample(map[string]any{"primitives": sortedKeys(c.prims)[:8], "lengths": "max-1, max, max+1, 2*max+1"})
